@@ -40,21 +40,33 @@ func (r *repeatReader) Read(p []byte) (int, error) {
 	return n, nil
 }
 
+// treeSizeFromRoot counts the nodes reachable from the root of n.  Links that form a cycle (possible only if a released
+// node is still linked) make the structure unbounded: reported as 1<<30.
 func treeSizeFromRoot(n *idr.Node) int {
 	root := n
-	for root.Parent != nil {
+	for hops := 0; root.Parent != nil; hops++ {
+		if hops > 1<<20 {
+			return 1 << 30
+		}
 		root = root.Parent
 	}
-	cnt := 0
-	var walk func(x *idr.Node)
-	walk = func(x *idr.Node) {
-		cnt++
+	seen := map[*idr.Node]bool{}
+	stack := []*idr.Node{root}
+	for len(stack) > 0 {
+		x := stack[len(stack)-1]
+		stack = stack[:len(stack)-1]
+		if seen[x] {
+			return 1 << 30
+		}
+		seen[x] = true
 		for c := x.FirstChild; c != nil; c = c.NextSibling {
-			walk(c)
+			if c == x || len(seen)+len(stack) > 1<<22 {
+				return 1 << 30
+			}
+			stack = append(stack, c)
 		}
 	}
-	walk(root)
-	return cnt
+	return len(seen)
 }
 
 type retCase struct {
